@@ -9,6 +9,7 @@
 (*   V4  nested quantified groups (loops of non-consuming instructions)                              *)
 (*   V5  special shapes: the ".*$" suffix and its look-alikes, "$" and "^" inside the pattern,         *)
 (*       wide bounded repetitions, empty pattern, empty groups                                       *)
+(*   V6  products of repetitions: (x q1) q2 for all pairs of quantifier shapes                       *)
 (***************************************************************************************************)
 EXTENDS Regex, Json, IOUtils, TLC, SequencesExt
 CONSTANTS Wide, AlphaCap, LenCap, Budget
@@ -63,8 +64,18 @@ V5 == {Anch(<<>>), Anch(<<DotStar>>), Anch(<<T(a), DotStar>>), Anch(<<DotStar, T
        Anch(<<Term(a, Q(4, 6, FALSE))>>), Anch(<<Term(Group(OneCat(<<T(a), T(b)>>)), Q(2, 3, FALSE))>>),
        Anch(<<Term(a, Q(0, Unbounded, TRUE)), T(b)>>), Anch(<<Term(Group(OneTerm(Term(a, Q(1, Unbounded, TRUE)))), QStar)>>)}
 
-Families == <<V1, V2, V3, V4, V5>>
-FamilyNames == <<"V1", "V2", "V3", "V4", "V5">>
+\* V6: a quantified group whose only content is one quantified term, (x q1) q2, for every pair of quantifier shapes --
+\* the product of two repetitions incl. the corners "outer minimum 0 / inner minimum >= 2" -- alone and followed by a
+\* literal, with one and (Wide) two pairs of parentheses, over a literal and (Wide) a two-character group
+NestQ == {NoQ, QOpt, QStar, QPlus, Q(2, 2, FALSE), Q(1, 2, FALSE), Q(2, Unbounded, FALSE), Q(3, Unbounded, FALSE)}
+         \cup (IF Wide THEN {Q(0, 2, FALSE), Q(0, 0, FALSE), Q(2, 3, FALSE), Q(0, Unbounded, FALSE)} ELSE {})
+Wrap(t, deep) == IF deep THEN Group(OneTerm(Term(Group(OneTerm(t)), NoQ))) ELSE Group(OneTerm(t))
+V6 == {Anch(<<Term(Wrap(Term(x, q1), deep), q2)>> \o tail) :
+         x \in {a} \cup (IF Wide THEN {Group(OneCat(<<T(a), T(b)>>))} ELSE {}),
+         q1 \in NestQ \ {NoQ}, q2 \in NestQ \ {NoQ}, deep \in (IF Wide THEN BOOLEAN ELSE {FALSE}), tail \in {<<>>, <<T(b)>>}}
+
+Families == <<V1, V2, V3, V4, V5, V6>>
+FamilyNames == <<"V1", "V2", "V3", "V4", "V5", "V6">>
 
 \* strings without line breaks: the boundary alphabet minus line feed and carriage return
 \* (trees that mention many code points -- sets with many ranges -- get a wider alphabet and hence shorter strings)
